@@ -199,6 +199,42 @@ def _run_mec_exh(acc, job):
     acc.exhaustive = (step == 1)
 
 
+STRADDLE_MAPS = [(9, [1, 8, 0, 2]), (10, [7, 9, 8, 3]), (12, [11, 2, 5, 8])]
+
+
+def _straddle(D, pbig, lab):
+    """The DAG D (<= 4 nodes) with node k relabelled lab[k] among pbig nodes: parent sets that mix labels below and above 8."""
+    out = [0] * pbig
+    for i in range(len(D)):
+        for j in G.bits(D[i]):
+            out[lab[i]] |= 1 << lab[j]
+    return tuple(out)
+
+
+def _run_straddle(acc, job):
+    """EVERY DAG on 3 and 4 nodes, relabelled into 9..12 labels on both sides of label 8 (three fixed maps): mec of the
+    relabelled DAG and all_dags of its essential graph against brute force.  (Iteration order of Python sets of node labels is
+    sorted only below 8; whatever depends on it shows on exactly these graphs.)"""
+    n = 0
+    for p in (3, 4):
+        for k, D in enumerate(G.all_dags(p)):
+            for mi, (pbig, lab) in enumerate(STRADDLE_MAPS):
+                n += 1
+                if n % job["nshards"] != job["shard"]:
+                    continue
+                B = _straddle(D, pbig, lab)
+                case = {"sub": "mec_hyp", "A": G.lists_from_rows(B), "variants": [["int"], ["weighted"], ["float", "nochain"]][(k + mi) % 3], "salt": k}
+                case2 = {"sub": "alldags_hyp", "P": G.lists_from_rows(G.union_graph(_mec(B))), "dtype": "int", "ice": False}
+                for c in (case, case2):
+                    try:
+                        lab_ = check(c)
+                        acc.record(c, lab_ + ["straddle_8"], True, by_construction=True, sample=(n % 997 == 3))
+                    except Violation as v:
+                        acc.record(c, [], False)
+                        acc.violation(c, v)
+    acc.exhaustive = True
+
+
 def _run_ice_pairs(acc, job):
     for p in (1, 2, 3):
         dags = G.all_dags(p)
@@ -375,6 +411,8 @@ def plan(tier, seed):
     ns = 16
     for k in range(ns):
         jobs.append({"sub": "alldags_exh", "p": 4, "shard": k, "nshards": ns, "ice_every": 7, "seed": seed, "cost": 5})
+    for k in range(8):
+        jobs.append({"sub": "straddle", "shard": k, "nshards": 8, "seed": seed, "cost": 8})
     for p in (1, 2, 3, 4):
         jobs.append({"sub": "mec_exh", "p": p, "shard": 0, "nshards": 1, "seed": seed, "cost": 4})
     if tier == "quick":
@@ -413,6 +451,8 @@ def run(job):
         _run_mec_exh(acc, job)
     elif sub == "ice_pairs":
         _run_ice_pairs(acc, job)
+    elif sub == "straddle":
+        _run_straddle(acc, job)
     elif sub == "mec_chain":
         _run_chain(acc, job)
     elif sub == "mec_hyp":
